@@ -329,6 +329,87 @@ func decoders16(f *ssa.Function) (sites []be16Site, vals []ssa.Value) {
 }
 
 func runC12(r *Report) {
+	// each direction half-closes the end it WRITES to when its source is exhausted (the peer of that end
+	// then sees EOF while the reverse direction keeps flowing); half-closing the end it reads from cuts
+	// the wrong way
+	if bd := r.P.Fn("internal/utils/iocopy", "Bidirectional"); bd != nil {
+		nHC := 0
+		var rootVarD func(v ssa.Value, d int) string
+		rootVarD = func(v ssa.Value, d int) string {
+			for _, rt := range Origins(v) {
+				if rt.Kind == "freevar" || rt.Kind == "param" {
+					return rt.Desc
+				}
+				// a wrapper built around the connection (transformer.WrapWriter(ctx, conn)): the connection is
+				// among the wrapper constructor's arguments
+				c, ok := rt.V.(*ssa.Call)
+				if ex, isEx := rt.V.(*ssa.Extract); isEx {
+					c, ok = ex.Tuple.(*ssa.Call)
+				}
+				if ok && d < 2 {
+					for _, a := range c.Call.Args {
+						if _, isConn := a.Type().Underlying().(*types.Interface); !isConn {
+							continue
+						}
+						if a.Type().String() == "context.Context" {
+							continue
+						}
+						if s := rootVarD(a, d+1); s != "" {
+							return s
+						}
+					}
+				}
+			}
+			return ""
+		}
+		rootVar := func(v ssa.Value) string { return rootVarD(v, 0) }
+		for _, g := range WithAnon(bd) {
+			if g.Parent() != bd {
+				continue
+			}
+			var dst string
+			for _, h := range WithAnon(g) {
+				for _, w := range Calls(h, false, "Write") {
+					if isWriteMethod(w) && dst == "" {
+						dst = rootVar(Recv(w))
+					}
+				}
+			}
+			for _, hc := range Calls(g, false, "tryCloseWrite") {
+				nHC++
+				tgt := rootVar(Arg(hc, 0))
+				r.Ob("R-C12-1", CallPos(hc), dst != "" && tgt == dst, fmt.Sprintf("the direction that writes to %s half-closes %s when it finishes (want the same end)", dst, tgt), r.P.FuncName(g), "half-close-is-destination")
+			}
+		}
+		if nHC < 2 {
+			r.Fail("R-C12-1", bd.Pos(), fmt.Sprintf("only %d half-close calls found in the copy directions of Bidirectional (2 confirmed by hand)", nHC), "Bidirectional", "half-close-is-destination:floor")
+		}
+	}
+	// the datagram batch refuses a datagram only when it is really full: the caller does not look at
+	// add's verdict, so an early refusal silently drops a datagram
+	if ad := r.P.Fn("internal/utils/iocopy", "udpBatchWriter.add"); ad != nil {
+		for _, ret := range Returns(ad) {
+			if v, isC := ConstBool(RetVal(ret, 0)); !isC || v {
+				continue
+			}
+			full := false
+			for _, ft := range Facts(ret.Block()) {
+				bo, ok := ft.Cond.(*ssa.BinOp)
+				if !ok || !((bo.Op == token.GEQ && ft.Pol) || (bo.Op == token.LSS && !ft.Pol) || (bo.Op == token.EQL && ft.Pol)) {
+					continue
+				}
+				_, fx, _, okx := FieldOf(bo.X)
+				if lc, isL := stripValue(bo.Y).(*ssa.Call); okx && fx == "count" && isL {
+					if b, isB := lc.Call.Value.(*ssa.Builtin); isB && b.Name() == "len" {
+						if _, fy, _, oky := FieldOf(lc.Call.Args[0]); oky && fy == "messages" {
+							full = true
+						}
+					}
+				}
+			}
+			r.Ob("R-C12-4", ret.Pos(), full, "the batch refuses a datagram only under count >= len(messages) (its true capacity)", "udpBatchWriter.add", "refuses-only-when-full")
+		}
+	}
 	// a half-close never closes: tryCloseWrite and every callback installed as the half-close of a
 	// tunnel end (4th argument of NewReadWriteCloserWithCloseWrite, stores into closeWriteFunc) call
 	// CloseWrite only. A fallback to Close() kills the reply direction of a request/response exchange
